@@ -5,6 +5,7 @@ that it links as a native executable.
 -/
 import Compress.Drv.XFlateReader
 import Compress.Drv.Meta
+import Compress.Drv.XFlateOpen
 
 open Compress.Util Compress.Drv
 
@@ -18,6 +19,7 @@ def processLine (line : String) : String :=
     let out :=
       match kind with
       | "xr" => handleXr kv
+      | "xo" => handleXo kv
       | "menc" => handleMenc kv
       | "mdec" => handleMdec kv
       | "mrs" => handleMrs kv
